@@ -331,7 +331,7 @@ func (r *Run) jobMain(j *JobRec) int {
 		case "truncated-outs":
 			b, _ := json.Marshal(sd)
 			out = b[:len(b)/2]
-		case "missing-outs":
+		case "missing-outs", "missing-stage-defs":
 			out = nil
 		default:
 			out, _ = json.MarshalIndent(sd, "", "  ")
